@@ -203,6 +203,13 @@ class DSession:
         res = model.project_query_value(q, val) if out == "ok" else []
         self._ev({"a": "Query", "q": q, "out": out, "res": res})
 
+    def query_min_start(self, ops):
+        """the public Dispatcher.min_start_time(list of operations)"""
+        lst = [self._op(j, p) for j, p in ops]
+        out, val = _outcome(lambda: model.num(self.dispatcher.min_start_time(lst)))
+        self._ev({"a": "QueryArg", "q": "min_start_time", "j": 1, "p": 1, "m": 0, "L": [list(o) for o in ops],
+                  "out": out, "res": val if out == "ok" else 0})
+
     def query_arg(self, q, j, p, m=0):
         d = self.dispatcher
         op = self._op(j, p)
@@ -525,6 +532,8 @@ def rerun_trace(tid, trace) -> dict:
             s.reset()
         elif a == "Query":
             s.query(ev["q"])
+        elif a == "QueryArg" and ev["q"] == "min_start_time":
+            s.query_min_start(ev["L"])
         elif a == "QueryArg":
             s.query_arg(ev["q"], ev["j"], ev["p"], ev.get("m", 0))
         elif a == "Filter":
